@@ -468,6 +468,7 @@ type FuncContract struct {
 	CallPre  map[string][]*Clause
 	Options  map[string]string
 	Assumes  map[string][]*Clause // label -> assumptions made when the label is reached (listed in the evidence)
+	Sets     []*Clause            // `sets g := expr`: ghost assignments at return (Name = ghost variable)
 	Devirt   map[string]string // "Iface.Method" or method name -> concrete function key
 	Params   []SVar            // for extern / interface methods / ghost: declared params
 	Results  []SVar
@@ -525,7 +526,7 @@ func NewContractSet() *ContractSet {
 
 var clauseKeywords = map[string]bool{"func": true, "ghost": true, "pred": true, "axiom": true, "lemma": true, "lockinv": true, "protects": true,
 	"interface": true, "method": true, "props": true, "requires": true, "modifies": true, "ensures": true, "loop": true, "label": true,
-	"callpre": true, "option": true, "extern": true, "devirt": true, "end": true, "assume": true}
+	"callpre": true, "option": true, "extern": true, "devirt": true, "end": true, "assume": true, "sets": true}
 
 // LoadContracts parses every //@ line of file. pkgPath is the Go import path the
 // contracts are about ("" for externals: keys are then taken verbatim).
@@ -805,6 +806,17 @@ func (cs *ContractSet) LoadFile(file, pkgPath string) error {
 				if f[0] == "trusted" || f[0] == "assume" {
 					cs.Scan = append(cs.Scan, fmt.Sprintf("%s on %s (%s:%d)", f[0], cur.Key, file, rc.line))
 				}
+			case "sets":
+				k := strings.Index(rest, ":=")
+				if k < 0 {
+					return fail("sets: want `sets ghostvar := expr`")
+				}
+				c, err := mkClause("sets", rest[k+2:])
+				if err != nil {
+					return fail("%v", err)
+				}
+				c.Name = strings.TrimSpace(rest[:k])
+				cur.Sets = append(cur.Sets, c)
 			case "assume":
 				// assume LABEL: expr   -- an explicit, listed assumption made when LABEL (e.g. lock1) is reached
 				k := strings.Index(rest, ":")
